@@ -35,7 +35,7 @@ fn entry_view(dict: &sudachi::dic::dictionary::JapaneseDictionary, dic: usize, r
 
 /// A version-3 user dictionary that declares no POS of its own, in the version-1 layout: other magic number, no
 /// (empty, 6-byte) POS block; the word-info offsets are absolute and move with the removed block.
-fn to_v1(v3: &[u8]) -> Option<Vec<u8>> {
+pub fn to_v1(v3: &[u8]) -> Option<Vec<u8>> {
     const HEADER: usize = 272;
     if v3.len() < HEADER + 18 || v3[..8] != 0xca9811756ff64fb0u64.to_le_bytes() || v3[HEADER..HEADER + 6] != [0u8; 6] {
         return None;
@@ -385,8 +385,46 @@ fn file_based(world: &crate::scen::World, rng: &mut Rng, rep: &mut Report, wi: u
         let _ = j;
         paths.push(dir.path.join(&name).to_string_lossy().to_string());
     }
+    // file names relative to the resource directory in every other stack
+    if rng.chance(1, 2) {
+        for (j, u) in order.iter().enumerate() {
+            paths[j] = format!("user{}.dic", u);
+        }
+        rep.count("stacks_listed_with_relative_paths", 1);
+    }
     let mut cfg_json = world.cfg_json.clone();
     cfg_json["systemDict"] = json!(dir.path.join("system.dic").to_string_lossy().to_string());
+    // a listed file that does not exist anywhere: the list cannot be honoured, so loading fails; it never succeeds with
+    // the later dictionaries moved down one number
+    {
+        let at = rng.below(paths.len());
+        let mut with_missing = paths.clone();
+        with_missing.insert(at, "no-such-user-dictionary.dic".to_string());
+        let mut cj = cfg_json.clone();
+        cj["userDict"] = json!(with_missing);
+        rep.eval();
+        let r = guard(|| {
+            let cfg = ConfigBuilder::from_bytes(&serde_json::to_vec(&cj).unwrap()).map_err(|e| format!("{:?}", e))?.resource_path(dir.path.clone()).build();
+            JapaneseDictionary::from_cfg(&cfg).map_err(|e| format!("{:?}", e))
+        });
+        match r {
+            Ok(Err(_)) => rep.count("stacks_with_a_missing_listed_file_refused", 1),
+            Ok(Ok(d)) => {
+                // numbers must still be positions in the configured list
+                let lex = d.lexicon();
+                'outer: for (j, u) in order.iter().enumerate().filter(|(j, _)| *j >= at) {
+                    let dic = j + 2;
+                    for (row, e) in world.users[*u].entries.iter().enumerate().filter(|(_, e)| e.indexed()) {
+                        if let Ok(false) = guard(|| lex.lookup(e.key.as_bytes(), 0).any(|x| x.end == e.key.len() && x.word_id.dic() as usize == dic && x.word_id.word() as usize == row)) {
+                            rep.violation("wrong_dictionary_id", "lookup", &format!("userDict lists a file that does not exist at position {}; loading succeeds and the dictionary listed at position {} (user{}.dic) is not found under number {}", at + 1, dic, u, dic), "", json!({"world_index": wi, "userDict": with_missing}));
+                            break 'outer;
+                        }
+                    }
+                }
+            }
+            Err(p) => rep.violation("load_panic", &p.site, &format!("userDict with a file that does not exist: {}", p.msg), "", json!({"world_index": wi, "userDict": with_missing})),
+        }
+    }
     // the list is given in the JSON text, or built up with ConfigBuilder::user_dict() (one call per file, the first
     // one possibly on top of a JSON list)
     let via_builder = rng.below(3);
